@@ -158,6 +158,13 @@ reg('C07',
     'object equals the jitted step; under the domain randomisation wrapper every member\'s reset and step equal pipeline.init/step on its own randomised system. Sampling, not proof.',
     'float64 except the scripted environment (float32); brax.v1 stubbed', 'DESIGN.md section 4 C07')
 
+reg('C03',
+    'property-based testing (Hypothesis model/state generators): validity predicate (finite gradient) on generated and constructed singular states in float64 and float32; differential of autodiff against central finite differences at three step sizes with a smoothness filter',
+    'No counter-example: for generated orthogonal-stack models, generic and singular states (qd = 0, q = 0, axis-aligned root, all zero), 1-5 steps (quick 1-2) of all three pipelines, and '
+    'contact scenes at rest, every gradient component is finite in float64 and float32; on generic states autodiff equals central differences (1e-5 of the gradient scale) in every '
+    'direction where the three finite-difference estimates agree. The gradient at an exactly zero second angle of a joint stack (spring/positional) is the recorded known finding. Sampling, not proof.',
+    'root rotations perturbed on the unit sphere; non-smooth directions and diverging runs counted, not compared', 'DESIGN.md section 4 C03')
+
 PENDING = {}
 
 
